@@ -32,7 +32,7 @@ ANCHORS = ["goose/iwls.py:IWLSKernel._standard_transition", "goose/rw.py:RWKerne
 ASSUMPTIONS = ["ill-conditioned cases (cond F > 1e4) and |log alpha| > 50 are excluded from the numeric comparison (counted as skipped)",
                "float32 tolerance on log alpha: 5e-3 + 3e-6*(|lp|+|lp'|+|log q_fwd|+|log q_bwd|)"]
 WORKERS = 16
-TIMEOUT = {"quick": 1200, "thorough": 3600}
+TIMEOUT = {"quick": 1500, "thorough": 10800}
 
 
 # ---------------------------------------------------------------- targets
